@@ -139,6 +139,7 @@ class Interp:
         st = State([fr], dict(heap or {}), dict(facts or {}))
         self.entry_key = entry_key
         self.ret_refine = ret_refine
+        self.pinned = set(facts or ())      # specialisation facts are never garbage-collected
         self.seen = {}
         self.work = deque()
         g.entry = self.enter_block(st, None, None)
@@ -290,6 +291,8 @@ class Interp:
                 if prims.classify(p)[0] in self.OPENERS or p.startswith('trait::'):
                     out.add(s)
                     continue
+            if t[0] == 'mu' and not t[1].rsplit('::', 1)[-1] in ('push', 'extend', 'insert', 'push_back', 'push_front', 'append', 'extend_from_slice'):
+                continue   # arguments of a non-inserting mutation are not owned by the mutated object
             work.extend(children(t))
         return out
 
@@ -673,9 +676,22 @@ class Interp:
     def clear_moves(self, st, fr, operands):
         d = len(st.frames) - 1
         for o in operands:
-            if o['k'] == 'move' and not o['pl']['p']:
-                if fr.locals.pop(o['pl']['l'], None) is not None:
+            if o['k'] != 'move':
+                continue
+            pl = o['pl']
+            if not pl['p']:
+                if fr.locals.pop(pl['l'], None) is not None:
                     fr.frozen = None
+            elif all(isinstance(e, list) and e[0] in ('f', 'dc') for e in pl['p']):
+                # a field moved out of an aggregate held in a local: that part is now uninitialised
+                base = fr.locals.get(pl['l'])
+                if base is not None and VAL[base][0] == 'agg':
+                    proj = tuple((e[0], e[1]) for e in pl['p'])
+                    try:
+                        fr.locals[pl['l']] = self.put(base, proj, None)
+                        fr.frozen = None
+                    except Exception:
+                        pass
 
     # ------------------------------------------------------------- refinement
 
@@ -1029,7 +1045,7 @@ class Interp:
         instance (and anything derived from it) no longer apply."""
         if not st.facts or v is None:
             return
-        dead = [k for k in st.facts if k[0] in ('var', 'sw') and v in subs(k[1])]
+        dead = [k for k in st.facts if k[0] in ('var', 'sw') and v in subs(k[1]) and k not in self.pinned]
         for k in dead:
             del st.facts[k]
 
@@ -1047,7 +1063,7 @@ class Interp:
                 live |= subs(v)
             if k[0] == 's':
                 live |= subs(k[1])
-        dead = [k for k in st.facts if k[0] in ('var', 'sw') and k[1] not in live]
+        dead = [k for k in st.facts if k[0] in ('var', 'sw') and k[1] not in live and k not in self.pinned]
         for k in dead:
             del st.facts[k]
 
